@@ -253,19 +253,20 @@ async fn restore_file(
         source,
     })?;
 
-    // Restore permissions only if there are mode bits stored in the archive
-    if let Err(source) = source_entry.unix_mode().set_permissions(&path) {
-        monitor.error(Error::RestorePermissions {
+    // Restore ownership if possible. This is done before the permissions, because changing the
+    // owner of a file clears its set-user-ID and set-group-ID bits.
+    // TODO: Stats and warnings if a user or group is specified in the index but
+    // does not exist on the local system.
+    if let Err(source) = source_entry.owner().set_owner(&path) {
+        monitor.error(Error::RestoreOwnership {
             path: path.clone(),
             source,
         });
     }
 
-    // Restore ownership if possible.
-    // TODO: Stats and warnings if a user or group is specified in the index but
-    // does not exist on the local system.
-    if let Err(source) = source_entry.owner().set_owner(&path) {
-        monitor.error(Error::RestoreOwnership {
+    // Restore permissions only if there are mode bits stored in the archive
+    if let Err(source) = source_entry.unix_mode().set_permissions(&path) {
+        monitor.error(Error::RestorePermissions {
             path: path.clone(),
             source,
         });
